@@ -13,6 +13,8 @@ import GormModel.Lemmas.WhereSwap
 import GormModel.Lemmas.SharedCell
 import GormModel.Lemmas.SharedConfig
 import GormModel.Lemmas.StmtWait
+import GormModel.Lemmas.SharedStmt
+import GormModel.Lemmas.SharedState
 namespace Gorm
 open Gorm.SchemaCache
 
@@ -442,6 +444,55 @@ theorem C07_failed_prepare_current_tree :
         left
         refine ⟨rfl, fun ops nV cfg sched hw e he herr t r hent hres => ?_⟩
         exact (C07_failed_prepare_every_waiter_gets_error ops nV cfg sched hw e he herr t r hent hres).1
+
+
+/-! ## Round 4 — the shared handle's own Statement, package-level state, the cached schema after its parse
+
+  `Model.SharedStmt`: goroutines start operations through ONE handle that carries clauses (Order, Where, …).  Each clones the
+  handle's Statement (getInstance) and builds its query from the clone; `Count` temporarily strips ORDER BY.  Regenerated
+  facts (Gen.SharedState, go/types over gorm's packages) say whether any *DB method writes through its RECEIVER
+  (`C07_receiver_statement_never_written`), whether any package keeps mutable state at package level
+  (`C07_package_state_immutable_or_synchronised`) and whether anything outside the parse phase writes into a cached schema
+  (`C07_cached_schema_written_only_while_parsing`, …) — all three in `Lemmas/SharedState.lean`. -/
+
+open Gorm.SharedStmt in
+/-- STRIP ON THE INSTANCE.  When Count strips / restores ORDER BY on its own instance, then under EVERY schedule of any number of
+  goroutines (any mix of Count and other finishers) the shared handle's clause map is never written … -/
+theorem C07_count_on_instance_keeps_handle (isCount : Nat → Bool) (s : St) (sched : List Nat) :
+    (run false isCount s sched).base = s.base :=
+  run_instance_base isCount s sched
+
+open Gorm.SharedStmt in
+/-- … and every other operation builds its statement from exactly the clauses the handle carries — the ones it would use when
+  it runs alone (same ORDER BY, hence the same rows in the same order). -/
+theorem C07_count_on_instance_others_unaffected (isCount : Nat → Bool) (b : List Nat) (sched : List Nat) (t : Nat)
+    (ht : isCount t = false) (l : List Nat) (hl : ((run false isCount (init b) sched).ths t).built = some l) : l = b :=
+  ((inv_run isCount b (init b) sched (inv_init isCount b)).2 t ht).2 l hl
+
+open Gorm.SharedStmt in
+/-- STRIP ON THE RECEIVER.  Goroutine 0 runs Count, goroutine 1 a Find through the same ordered handle (clauses ORDER BY = 0 and
+  WHERE = 1): if Count works on the receiver, the Find that clones between strip and restore is built WITHOUT ORDER BY, and
+  while Count is in flight the handle itself has lost the clause; run one after the other both are as alone (which is why a
+  sequential test suite cannot see it). -/
+theorem C07_count_on_receiver_counterexample :
+    let k : Nat → Bool := fun t => t == 0
+    ((run true k (init [0, 1]) [0, 0, 1, 1]).ths 1).built = some [1] ∧
+    (run true k (init [0, 1]) [0, 0]).base = [1] ∧
+    ((run true k (init [0, 1]) [0, 0, 0, 0, 1, 1]).ths 1).built = some [0, 1] ∧
+    (run true k (init [0, 1]) [0, 0, 0, 0, 1, 1]).base = [0, 1] := by decide
+
+open Gorm.SharedStmt in
+/-- WHAT HOLDS FOR THE CURRENT SOURCE TREE (decided by the regenerated fact Gen.recvWrites): Count strips on its instance and the
+  handle is constant under every schedule — or it strips on the receiver and the counterexample schedule applies. -/
+theorem C07_count_strip_current_tree :
+    (countStripsOnReceiver = false ∧ ∀ (k : Nat → Bool) (s : St) (sched : List Nat), (run countStripsOnReceiver k s sched).base = s.base) ∨
+    (countStripsOnReceiver = true ∧ ((run countStripsOnReceiver (fun t => t == 0) (init [0, 1]) [0, 0, 1, 1]).ths 1).built = some [1]) := by
+  cases h : countStripsOnReceiver with
+  | false => exact Or.inl ⟨rfl, fun k s sched => run_instance_base k s sched⟩
+  | true => exact Or.inr ⟨rfl, by decide⟩
+
+/-- non-vacuity: a reader that ran to completion did build from the handle's clauses -/
+example : ((Gorm.SharedStmt.run false (fun t => t == 0) (Gorm.SharedStmt.init [0, 1]) [0, 0, 1, 1, 0, 0]).ths 1).built = some [0, 1] := by decide
 
 
 end Gorm
